@@ -12,12 +12,24 @@ import (
 	"sync"
 	"sync/atomic"
 	"testing"
+	"time"
 
 	"pgregory.net/rapid"
 	"verif/pbt/evid"
 )
 
 const repoMod = "github.com/pip-services3-gox/pip-services3-expressions-gox/"
+
+// The sandbox runs in UTC, where "local" and "UTC" calendar arithmetic coincide. The checks therefore run with a
+// process-local zone that has an offset (chosen by VERIF_SEED: +05:30, -08:00, +13:00, or UTC for seeds = 0 mod 4),
+// set once before any test starts; the references use instants (time.Unix) and time.Local exactly as the statements do.
+func init() {
+	offsets := []int{0, 5*3600 + 1800, -8 * 3600, 13 * 3600}
+	off := offsets[int(verifSeed()%4)]
+	if off != 0 {
+		time.Local = time.FixedZone(fmt.Sprintf("verif%+d", off/60), off)
+	}
+}
 
 // ---------------------------------------------------------------------------------------
 // tiers, seeds, budgets
